@@ -124,7 +124,17 @@ def install(reg):
         loops={0: LoopSpec(invariants=[("r-lines-have-no-cr-lf", "all_elems(r, 'no_crlf')")], types={"r": ListOf(Bytes)})},
         props=["inline-on-constants"]))
     reg.add(FuncContract("parser.split_uri", params={"uri": Bytes}, returns=TupleOf(Str1, Str1, Str1, Str1, Str1),
-        raises=["parser.ParsingError"], props=["inline-on-constants"]))
+        raises=["parser.ParsingError"], props=["inline-on-constants"],
+        ensures=[
+            # the scheme-less "//..." form is cut by hand (not by urlsplit): fragment after the first '#', query after the first '?' before it
+            ("C07-query-starts-after-the-first-question-mark",
+             "implies(uri[:2] == b'//' and b'#' not in uri and b'?' in uri, result[3] == uri[uri.find(b'?') + 1:].decode('latin-1'))"),
+            ("C07-no-query-without-a-question-mark", "implies(uri[:2] == b'//' and b'?' not in uri, result[3] == '')"),
+            ("C07-fragment-starts-after-the-first-hash", "implies(uri[:2] == b'//' and b'#' in uri, result[4] == uri[uri.find(b'#') + 1:].decode('latin-1'))"),
+            ("C07-double-slash-target-has-no-scheme-or-authority", "implies(uri[:2] == b'//', result[0] == '' and result[1] == '')"),
+        ]))
+    reg.funcs["parser.split_uri"].body_only = {"C07-query-starts-after-the-first-question-mark", "C07-no-query-without-a-question-mark",
+                                               "C07-fragment-starts-after-the-first-hash", "C07-double-slash-target-has-no-scheme-or-authority"}
     reg.inline.add("parser.unquote_bytes_to_wsgi")
     # parse_header is a helper of received(): it is entered while the representation invariant is temporarily broken
     # (header_bytes_received already updated, header_plus not yet), so its body is verified from `requires` alone
